@@ -485,6 +485,18 @@ func (env *SpecEnv) expr(e *Expr) (SV, error) {
 			return SV{}, fmt.Errorf("unknown identifier %q", e.Name)
 		}
 		return sv, nil
+	case "call":
+		if e.Name == "loopentry" && len(e.Args) == 1 {
+			// loopentry(e): value of e on first arrival at the header of the loop this invariant belongs to
+			if env.loop == nil || env.loop.preState == nil {
+				return SV{}, fmt.Errorf("loopentry() outside a loop invariant")
+			}
+			n := *env
+			n.st = env.loop.preState
+			n.cellSt = env.loop.preState
+			return n.expr(e.Args[0])
+		}
+		return env.call(e)
 	case "old":
 		if env.old == nil {
 			return SV{}, fmt.Errorf("old() not available here")
@@ -559,8 +571,6 @@ func (env *SpecEnv) expr(e *Expr) (SV, error) {
 			return SV{}, err
 		}
 		return env.index(a, i)
-	case "call":
-		return env.call(e)
 	}
 	return SV{}, fmt.Errorf("unsupported spec expression %s", e.Kind)
 }
